@@ -20,6 +20,7 @@ const (
 type DFault struct {
 	Dir  int    `json:"dir"`
 	N    int    `json:"n"`
+	Name string `json:"name,omitempty"` // if set (and the network has a Namer): hit the datagram with this name instead of index N
 	Kind string `json:"kind"`
 	P    int64  `json:"p,omitempty"`
 	Mask byte   `json:"mask,omitempty"`
@@ -38,6 +39,7 @@ type Dgram struct {
 	Index   int // index within its direction, as sent
 	Dropped bool
 	Dup     bool
+	Name    string // "<kind>#<occurrence>" when the network has a Namer
 	next    *Dgram
 	gone    bool
 }
@@ -55,6 +57,42 @@ type Net struct {
 	// replace the list of datagrams actually delivered (returns nil to keep
 	// the default handling). It runs in the sender's task.
 	Hook func(d *Dgram) []*Dgram
+	// Namer classifies a datagram ("CH0", "F4" ...); the network appends "#occurrence".
+	Namer func(d *Dgram) string
+	names []nameCount
+}
+
+type nameCount struct {
+	dir  int
+	name string
+	n    int
+}
+
+//go:norace
+func (n *Net) nameOf(d *Dgram) string {
+	k := n.Namer(d)
+	for i := range n.names {
+		if n.names[i].dir == d.Dir && n.names[i].name == k {
+			n.names[i].n++
+			return k + "#" + itoa(n.names[i].n)
+		}
+	}
+	n.names = append(n.names, nameCount{d.Dir, k, 1})
+	return k + "#1"
+}
+
+func itoa(v int) string {
+	if v == 0 {
+		return "0"
+	}
+	var b [12]byte
+	i := len(b)
+	for v > 0 {
+		i--
+		b[i] = byte('0' + v%10)
+		v /= 10
+	}
+	return string(b[i:])
 }
 
 type sentEnt struct {
@@ -181,6 +219,9 @@ func (p *PacketConn) WriteTo(b []byte, a net.Addr) (int, error) {
 	n := p.net
 	d := &Dgram{Data: clone(b), OrigLen: len(b), From: p.la, To: Addr(a.String()), SentAt: vs.K.Elapsed(), Seq: vs.Seq(), Dir: p.dir, Index: n.NSent[p.dir&1]}
 	n.NSent[p.dir&1]++
+	if n.Namer != nil {
+		d.Name = n.nameOf(d)
+	}
 	e := &sentEnt{d: d}
 	if n.tail == nil {
 		n.head, n.tail = e, e
@@ -206,7 +247,14 @@ func (n *Net) route(d *Dgram) {
 	dup := false
 	for i := range n.Plan {
 		f := &n.Plan[i]
-		if f.Dir != d.Dir || f.N != d.Index {
+		if f.Dir != d.Dir {
+			continue
+		}
+		if f.Name != "" {
+			if f.Name != d.Name {
+				continue
+			}
+		} else if f.N != d.Index {
 			continue
 		}
 		n.fired[i] = true
